@@ -15,6 +15,14 @@ existence through a call: arguments passed by value, results of the `or_insert_w
 `Default::default`), `returned` (values handed back to the caller by `remove`), `dropped`
 (values whose destructor ran inside a call).
 
+Faults raised by *user code* while a `World` call (or a closure holding guards) is on the stack are
+part of the model: a closure that panics while it holds guards (`scope`, `entryFault .guardHeld`),
+a closure handed to `or_insert_with` that panics (`entryFault .closure`), and a value whose `Drop`
+panics at the place where the world drops it (`insertFused`, `entryFault .valueDrop`,
+`dropReturned`, `dropWorldPanic`). Such a call answers `Out.unwound` (the panic came from user
+code) as opposed to `Out.panic` (the world itself refused). A value whose `Drop::drop` ran counts as
+dropped, also when that `drop` panicked.
+
 Each function treats one cell operation (`try_borrow`, `borrow_mut`, the guard's `drop`) as one
 atomic step; the atomics of `atomic_refcell` are not modelled (see notes/C08.md).
 Core Lean only: this file is linked into the driver executable.
@@ -87,6 +95,19 @@ def dropGuard (h : Nat) : List (Nat × Guard) → List (Nat × Guard)
   | [] => []
   | p :: rest => if p.1 = h then rest else p :: dropGuard h rest
 
+/-- a panic raised by user code that runs inside a call: a closure (`or_insert_with`'s argument, the
+body of a scope) or the `Drop` of a value the world drops -/
+inductive Fault | closure | drop
+deriving DecidableEq, Repr
+
+/-- how a closure that holds guards ended: it returned, it panicked by itself while holding them,
+or one of its fetches was refused by the world (which is a panic, too) -/
+inductive ScopeEnd
+  | returned
+  | panicked
+  | refused (p : WPanic)
+deriving DecidableEq, Repr
+
 /-- result of one operation -/
 inductive Out
   | unit
@@ -97,6 +118,8 @@ inductive Out
   | seen (token : Nat)                -- `get_mut` / a scoped `entry` guard showed this value
   | data (fields : List (Option (Nat × Nat)))   -- composite system data: (handle, token) per field, `none` = `Option` field is `None`
   | panic (p : WPanic)
+  | scopeDone (seen : List (Option Nat)) (fin : ScopeEnd)   -- a closure that took guards: what they showed, how it ended
+  | unwound (f : Fault)               -- the call was unwound by a panic raised by user code
 deriving DecidableEq, Repr
 
 /-- `AtomicBorrowRef::try_new` (fetch_add 1, fails if the high bit is set) /
@@ -303,6 +326,148 @@ def exec (w : World) (items : List SdItem) (toks : List Nat) : World × Out :=
 def dropWorld (w : World) : World :=
   { w with cells := [], dropped := w.dropped ++ w.cells.map (·.2.token) }
 
+/-! ## closures that hold guards, and unwinding through them
+
+`catch_unwind(|| { let a = world.fetch::<A>(); let b = world.try_fetch_mut_by_id::<B>(id); …; panic!() })`:
+the body takes guards one after the other — each by one of the `&self` entry points, by cloning a
+guard, or by stepping an iterator over a `MetaTable` created inside the closure — and then returns or
+panics; a refused fetch in the middle is a panic at that point. Either way every guard the closure
+owns is dropped (locals are dropped in reverse order of their creation, on return and on unwinding
+alike), i.e. released exactly as by `release`; guards that live outside the closure are not touched. -/
+
+/-- one acquisition inside the closure -/
+inductive Take
+  | fetch (ty : Nat) (excl orPanic : Bool)        -- `fetch` / `fetch_mut` / `try_fetch` / `try_fetch_mut`
+  | byId (tyArg : Nat) (k : ResId) (excl : Bool)  -- `try_fetch_by_id` / `try_fetch_mut_by_id`
+  | data (items : List SdItem)                    -- `system_data::<(…)>()`
+  | iter (excl : Bool)                            -- `next()` of the closure's own `MetaIter` / `MetaIterMut`
+  | cloneLocal (i : Nat)                          -- `Fetch::clone` of the `i`-th guard the closure has taken
+  | cloneOuter (h : Nat)                          -- `Fetch::clone` of a guard that lives outside the closure
+deriving DecidableEq, Repr
+
+/-- the guards an answer carries -/
+def handlesOf : Out → List Nat
+  | .guard h _ => [h]
+  | .data fs => fs.filterMap fun f => f.map (·.1)
+  | _ => []
+
+/-- what the closure sees through them (`none` = a `try_` form / an `Option` field answered `None`) -/
+def seenOf : Out → List (Option Nat)
+  | .guard _ t => [some t]
+  | .data fs => fs.map fun f => f.map (·.2)
+  | .none => [none]
+  | _ => []
+
+/-- one acquisition: `ri` / `wi` are the positions of the closure's shared / exclusive meta
+iterator, `prior` the handles of the guards it has taken so far -/
+def Take.run (w : World) (tys : List Nat) (ri wi : Nat) (prior : List Nat) : Take → World × Out
+  | .fetch ty excl orPanic => w.fetchCore ⟨ty, 0⟩ excl .typed orPanic
+  | .byId a k excl => if excl then w.tryFetchMutById a k else w.tryFetchById a k
+  | .data items => w.sysData items
+  | .iter excl => let r := w.metaNext tys (if excl then wi else ri) excl; (r.1, r.2.1)
+  | .cloneLocal i => match prior[i]? with
+    | some h => w.cloneGuard h
+    | none => (w, .none)
+  | .cloneOuter h => w.cloneGuard h
+
+/-- the iterator positions after the acquisition (`MetaIter::next` advances before it borrows) -/
+def Take.advance (w : World) (tys : List Nat) (ri wi : Nat) : Take → Nat × Nat
+  | .iter false => ((w.metaNext tys ri false).2.2, wi)
+  | .iter true => (ri, (w.metaNext tys wi true).2.2)
+  | _ => (ri, wi)
+
+/-- dropping guards one after the other -/
+def releaseAll (w : World) : List Nat → World
+  | [] => w
+  | h :: hs => releaseAll (w.release h) hs
+
+/-- the body of the closure up to its end or to the first refused fetch: the world at that point,
+the handles of the guards it then owns (in the order taken), what they showed, and the refusal -/
+def scopeBody (tys : List Nat) : List Take → World → Nat → Nat → List Nat →
+    World × List Nat × List (Option Nat) × Option WPanic
+  | [], w, _, _, _ => (w, [], [], none)
+  | t :: rest, w, ri, wi, prior =>
+    match t.run w tys ri wi prior with
+    | (w1, .panic p) => (w1, [], [], some p)
+    | (w1, o) =>
+      let b := scopeBody tys rest w1 (t.advance w tys ri wi).1 (t.advance w tys ri wi).2 (prior ++ handlesOf o)
+      (b.1, handlesOf o ++ b.2.1, seenOf o ++ b.2.2.1, b.2.2.2)
+
+/-- the whole closure under `catch_unwind`: body, then — on return, on its own `panic!()` and on a
+refused fetch alike — the guards it owns are dropped, last taken first -/
+def scope (w : World) (tys : List Nat) (takes : List Take) (endPanic : Bool) : World × Out :=
+  let b := scopeBody tys takes w 0 0 []
+  (releaseAll b.1 b.2.1.reverse,
+   .scopeDone b.2.2.1 (match b.2.2.2 with
+     | some p => .refused p
+     | none => if endPanic then .panicked else .returned))
+
+/-! ## faults inside `&mut World` calls -/
+
+/-- `insert_by_id::<R>(id, r)` where the `Drop` of the value that is replaced panics:
+`self.resources.insert(id, …)` (mod.rs l.532) has stored the new cell before the old one — the
+`Option` it returns, a temporary — is dropped, so the state is the one of `insertById`; the old
+value's `drop` ran (once), the call is unwound. A vacant slot or a failing type assertion drops
+nothing that is armed: exactly `insertById`. -/
+def insertFused (w : World) (tyArg : Nat) (k : ResId) (token : Nat) : World × Out :=
+  match w.insertById tyArg k token, w.get k with
+  | (w', .unit), some _ => (w', .unwound .drop)
+  | r, _ => r
+
+/-- which fault an `entry` call meets -/
+inductive EntryFault
+  | guardHeld (byValue : Bool)   -- the caller panics while it holds the returned `FetchMut`
+  | valueDrop                    -- `or_insert(v)`: the `Drop` of `v` panics (it is dropped iff the slot is occupied)
+  | closure                      -- `or_insert_with(f)`: `f` panics (it runs iff the slot is vacant)
+deriving DecidableEq, Repr
+
+/-- `entry::<R>()…` with a fault (entry.rs l.40/45, `hash_map::Entry::or_insert_with`):
+* `guardHeld`: the call itself is `entryOrInsert`; unwinding drops the guard;
+* `valueDrop`: occupied — std's `or_insert_with` returns the slot and drops the unused closure
+  (which owns `v`) on its way out, before shred's `borrow_mut()`: no guard, nothing stored, `v`
+  dropped; vacant — `v` is stored, nothing is dropped: the plain call;
+* `closure`: vacant — `default()` panics before `VacantEntry::insert`: nothing happens at all;
+  occupied — `f` is not called: the plain call. -/
+def entryFault (w : World) (ty : Nat) (token : Nat) : EntryFault → World × Out
+  | .guardHeld byValue =>
+    match w.entryOrInsert ty token byValue with
+    | (w', .guard h _) => (release w' h, .unwound .closure)
+    | r => r
+  | .valueDrop =>
+    match w.get ⟨ty, 0⟩ with
+    | some _ => ({ w with created := w.created ++ [token], dropped := w.dropped ++ [token] }, .unwound .drop)
+    | none => w.entryScoped ty token true
+  | .closure =>
+    match w.get ⟨ty, 0⟩ with
+    | some _ => w.entryScoped ty token false
+    | none => (w, .unwound .closure)
+
+/-- `exec(f)` where `f` panics while it holds the system data: `setup` and the fetch as in `exec`;
+unwinding drops the data -/
+def execFault (w : World) (items : List SdItem) (toks : List Nat) : World × Out :=
+  match sysData (setup w items toks).1 items with
+  | (w2, .data fs) => (releaseData w2 fs, .unwound .closure)
+  | r => r
+
+/-! ## what the caller does with a value `remove` handed back, and the end of the world -/
+
+/-- the caller drops a value it got from `remove` (its `Drop` may panic: it still ran) -/
+def dropReturned (w : World) (token : Nat) : World :=
+  if token ∈ w.returned then { w with returned := w.returned.erase token, dropped := w.dropped ++ [token] } else w
+
+/-- dropping the world when the `Drop` of the stored value `token` panics: the table drops its
+elements in its own iteration order; `hashbrown::RawTable::drop` stops at the panic and leaks the
+elements it had not reached — never dropped, not dropped twice either. Which other values were
+dropped (`before`: in hashbrown's case the ones it reached before `token`) is the table's private
+business, so it is an input. `none` if `before` is not a duplicate-free selection of the other stored
+values. Second component: the leaked values. -/
+def dropWorldPanic (w : World) (token : Nat) (before : List Nat) : Option (World × List Nat) :=
+  let stored := w.cells.map (·.2.token)
+  if token ∈ stored ∧ token ∉ before ∧ before.Nodup ∧ (∀ t ∈ before, t ∈ stored) then
+    some ({ w with cells := [], dropped := w.dropped ++ before ++ [token] },
+          stored.filter fun t => t ≠ token ∧ t ∉ before)
+  else none
+
 /-! ## histories -/
 
 inductive Op
@@ -327,18 +492,23 @@ inductive Op
   | metaNext (tys : List Nat) (idx : Nat) (excl : Bool)
   | clone (h : Nat)
   | drop (h : Nat)
+  | scope (tys : List Nat) (takes : List Take) (endPanic : Bool)
+  | insertFused (tyArg : Nat) (k : ResId) (tok : Nat)
+  | entryFault (ty tok : Nat) (f : EntryFault)
+  | execFault (items : List SdItem) (toks : List Nat)
 deriving DecidableEq, Repr
 
 /-- takes `&mut self` -/
 def Op.isMut : Op → Bool
   | .insert .. | .insertById .. | .remove .. | .removeById .. | .entry .. | .getMut .. | .getMutRaw ..
-  | .setup .. | .exec .. => true
+  | .setup .. | .exec .. | .insertFused .. | .entryFault .. | .execFault .. => true
   | _ => false
 
 /-- the tokens an operation may turn into values -/
 def Op.tokens : Op → List Nat
-  | .insert _ t | .insertById _ _ t | .entry _ t _ => [t]
-  | .setup _ ts | .exec _ ts => ts
+  | .insert _ t | .insertById _ _ t | .entry _ t _ | .insertFused _ _ t => [t]
+  | .entryFault _ t (.guardHeld _) | .entryFault _ t .valueDrop => [t]
+  | .setup _ ts | .exec _ ts | .execFault _ ts => ts
   | _ => []
 
 def step (w : World) : Op → World × Out
@@ -363,6 +533,25 @@ def step (w : World) : Op → World × Out
   | .metaNext tys idx x => let r := w.metaNext tys idx x; (r.1, r.2.1)
   | .clone h => w.cloneGuard h
   | .drop h => (w.release h, .unit)
+  | .scope tys takes e => w.scope tys takes e
+  | .insertFused a k tok => w.insertFused a k tok
+  | .entryFault ty tok f => w.entryFault ty tok f
+  | .execFault items toks => w.execFault items toks
+
+/-- the existing operation a `Take` is -/
+def Take.toOp (tys : List Nat) (ri wi : Nat) (prior : List Nat) : Take → Op
+  | .fetch ty false true => .fetch ty
+  | .fetch ty true true => .fetchMut ty
+  | .fetch ty false false => .tryFetch ty
+  | .fetch ty true false => .tryFetchMut ty
+  | .byId a k false => .tryFetchById a k
+  | .byId a k true => .tryFetchMutById a k
+  | .data items => .systemData items
+  | .iter excl => .metaNext tys (if excl then wi else ri) excl
+  | .cloneLocal i => match prior[i]? with
+    | some h => .clone h
+    | none => .hasValueRaw ⟨0, 0⟩      -- never generated: a closure cannot name a guard it has not taken
+  | .cloneOuter h => .clone h
 
 /-- the world after a history -/
 def run (w : World) : List Op → World
